@@ -537,6 +537,12 @@ func newSlim(keys []string, bytesValues [][]byte, opt *Opt) (*Slim, error) {
 			panic("wordStart smaller than o.fromKeyBit")
 		}
 
+		// Without InnerPrefix a step is stored in 16 bits, in unit of 4 bits.
+		if !*opt.InnerPrefix && (wordStart-o.fromKeyBit)>>2 > 0xffff {
+			return nil, errors.Wrapf(ErrStepTooLong,
+				"keys[%d:%d] from bit %d to %d", s, e, o.fromKeyBit, wordStart)
+		}
+
 		ks := make([]string, 0)
 		for i := s; i < e; i++ {
 			if tokeep[i] {
